@@ -8,10 +8,10 @@
        S RS shaper RS format(c|x) RS sink(s|f) RS threshold
        P RS shaper RS sink
     output row: [dom; out_1; spec_1; store_1; out_2; spec_2; store_2; ...]
-       dom      "1" iff the history is in C18_dom
+       dom      "1" iff the history is well-formed (C18_dom)
        out_k    what the model of the code answers to op k   (new | T<descr> | F<descr> | err | hang)
        spec_k   what the reference semantics answers to op k
-       store_k  the caller-visible dictionaries after op k, joined by GS *)
+       store_k  the caller's dictionary objects after op k, joined by GS (never written any more) *)
 From Coq Require Import List Ascii String ZArith NArith Bool.
 From Shexer Require Import Lib.PyStr Lib.Dict Gen.Consts Model.Table Model.Determinism Model.ShaperApi
      Model.ApiFree Spec.ApiSpec.
@@ -78,10 +78,10 @@ Definition f_spec := spec fargs str str fshapes str fa_ns fa_ex f_track f_reader
                           f_add_examples f_shexc_lines f_shacl_text f_profile_text f_rand f_fuel.
 
 (** outputs and the store after every op *)
-Fixpoint trace (st : state fargs str str fshapes) (h : list fop) : list (outcome * list nsd) :=
+Fixpoint trace (st : state fargs str str fshapes str) (h : list fop) : list (outcome * list nsd) :=
   match h with
   | [] => []
-  | o :: h' => let '(st', out) := f_step st o in (out, store st') :: trace st' h'
+  | o :: h' => let '(st', out) := f_step st o in (out, cdicts st') :: trace st' h'
   end.
 
 Fixpoint zip3 (a : list (outcome * list nsd)) (b : list outcome) : list str :=
